@@ -343,6 +343,17 @@ static void run_data(void)
 	if (strlen(nl) == 0) { fclose(fp); fp = fopen("/dev/null", "r"); }
 	ret_int(vnadata_fload(subject, fp, str));
 	fclose(fp);
+    } else if (!strcmp(fn, "load_text")) {
+	/* str = "<filename>\n<file text>": written under the scratch directory and loaded by name, so that
+	 * vnadata_load's own clean-up (fclose) runs after the parser has reported */
+	char *nl = strchr(str, '\n');
+	char path[600];
+	FILE *fp;
+	if (nl == NULL) nl = str + strlen(str); else *nl++ = 0;
+	snprintf(path, sizeof(path), "%s/%s", tmpdir, str);
+	fp = fopen(path, "w"); fputs(nl, fp); fclose(fp);
+	ret_int(vnadata_load(subject, path));
+	unlink(path);
     } else if (!strcmp(fn, "load")) ret_int(vnadata_load(subject, str));
     else if (!strcmp(fn, "save")) ret_int(vnadata_save(subject, str));
     else if (!strcmp(fn, "fsave") || !strcmp(fn, "cksave")) {
@@ -380,7 +391,7 @@ static void run_data(void)
 	vnadata_free(other);
     } else sfx = 0;
     if (sfx == 0) {
-	if (!strcmp(fn, "fload") || !strcmp(fn, "load")) {
+	if (!strcmp(fn, "fload") || !strcmp(fn, "load") || !strcmp(fn, "load_text")) {
 	    char *buf = NULL; size_t len = 0;
 	    FILE *fp = open_memstream(&buf, &len);
 	    R.enabled = 0;
@@ -912,9 +923,9 @@ static void run_new(void)
 	if (a[1] == 4) mf[1] = 2e9;
 	if (a[1] == 5) { mf[0] = 4e9; mf[1] = 0.5e9; }
 	ret_int(vnacal_new_set_m_error(vnp, mf, n, a[1] == 2 ? NULL : nf, tr));
-    } else if (!strcmp(fn, "set_pvalue_limit")) ret_int(vnacal_new_set_pvalue_limit(vnp, (double)a[1] / 1000.0));
-    else if (!strcmp(fn, "set_et_tolerance")) ret_int(vnacal_new_set_et_tolerance(vnp, (double)a[1] / 1000.0));
-    else if (!strcmp(fn, "set_p_tolerance")) ret_int(vnacal_new_set_p_tolerance(vnp, (double)a[1] / 1000.0));
+    } else if (!strcmp(fn, "set_pvalue_limit")) ret_int(vnacal_new_set_pvalue_limit(vnp, a[1] == -999 ? NAN : (double)a[1] / 1000.0));
+    else if (!strcmp(fn, "set_et_tolerance")) ret_int(vnacal_new_set_et_tolerance(vnp, a[1] == -999 ? NAN : (double)a[1] / 1000.0));
+    else if (!strcmp(fn, "set_p_tolerance")) ret_int(vnacal_new_set_p_tolerance(vnp, a[1] == -999 ? NAN : (double)a[1] / 1000.0));
     else if (!strcmp(fn, "set_iteration_limit")) ret_int(vnacal_new_set_iteration_limit(vnp, (int)a[1]));
     else if (!strcmp(fn, "solve")) ret_int(vnacal_new_solve(vnp));
     else {
